@@ -134,6 +134,9 @@ CURATED += [
     # the same kind of program as text with \r\n line ends (every line kind, strings in front of labels and aligns)
     ('crlf_strings!crlf', ['string abc', 'L1:', 'bytes 1 2', 'string d', 'align 4', 'L2:', 'dw L1', 'dw L2', FC, 'j L2', 'K9 = 3', 'addi x9 x9 K9', 'string \u00e9']),
     ('crlf_code!crlf', ['L1:', FC, 'li x5 K0', G(0), 'beq x8 x0 L1', 'pack <h 1', 'align 2', 'L2:', 'call L1', 'dw %offset(L2)']),
+    # a far call (auipc+jalr: a %hi/%lo pair), then labels that sit directly in front of shrinking li's, and pairs naming them
+    ('hilo_far_call_label_li', ['call L9', 'L1:', 'li x10 5', 'lui x5 %hi(L1)', 'addi x5 x5 %lo(L1)', 'ret', G(0), 'L9:', 'li x11 7', 'lui x6 %hi(L9)', 'lw x6 x6 %lo(L9)', 'ret']),
+    ('hilo_far_tail_label_li', ['tail L9', 'L1:', 'li x10 K0', 'lui x5 %hi(L1)', 'addi x5 x5 %lo(L1)', G(0), 'L9:', 'li x11 7', 'call L1', 'dw L9']),
     ('far_call_then_bwd_br', ['call L9', 'L1:', G(0), 'bnez x8 L1', 'j L1', G(1), 'L9:', F4]),
     ('far_tail_then_bwd_j', ['mv x8 x9', 'tail L9', 'L1:', FC, G(0), 'j L1', 'beq x9 x0 L1', G(1), 'L9:', F4]),
     ('labelref_then_regonly', ['L0:', 'bne x8 x9 L0', 'sub x8 x8 x9', 'lui x5 %hi(L0)', 'and x8 x8 x9', 'lw x12 x0 %lo(L0)', 'slli x9 x9 2', 'dw L0', 'add x8 x8 x9', 'j L0', 'ebreak']),
